@@ -534,6 +534,15 @@ func (p *Program) successResults(fn *ssa.Function) []resultCase {
 		for _, rl := range F.At(r.Block()).Rels() {
 			rc.Guards = append(rc.Guards, p.Render(rl.x)+" "+rl.op.String()+" "+p.Render(rl.y))
 		}
+		for f := range F.At(r.Block()) {
+			if _, ok := relsOf(f); !ok {
+				s := p.Render(f.cond)
+				if !f.truth {
+					s = "!" + s
+				}
+				rc.Guards = append(rc.Guards, s)
+			}
+		}
 		sort.Strings(rc.Guards)
 		out = append(out, rc)
 	}
